@@ -393,6 +393,58 @@ func c04Run(c *fw.Ctx, b fw.Batch) {
 				c.Distinct("repeat|" + first)
 			}
 		}
+		if b.Idx == 1 {
+			// (1) a result is complete when Detect returns: the caller may re-use its buffer at once;
+			// what the accessors say later must not depend on what the buffer holds then
+			texts := [][]byte{[]byte("<html><head><meta charset=\"koi8-r\"></head><body>x"), []byte("caf\xe9 latin-1 text"), []byte("<?xml version=\"1.0\" encoding=\"big5\"?><a/>"), []byte("Wait\x85 windows text"), []byte("\xef\xbb\xbfbom text"), []byte("{\"type\":\"Feature\"}"), []byte("a,b\n1,2\n")}
+			for _, x := range texts {
+				for _, other := range texts {
+					buf := make([]byte, 256)
+					n := copy(buf, x)
+					want := leafOf(lib.Detect(append([]byte(nil), x...), 3072))
+					key := fw.InputKey(x, 3072, "Detect/buffer-reused-before-String")
+					pl := c04Payload{Kind: "late-accessors", Probe: c04Probe{Name: "input", In: x, Limit: 3072, Want: want}}
+					var got string
+					if !c.Guard(key, func() any { return pl }, func() {
+						m := lib.Detect(buf[:n], 3072)
+						for i := range buf {
+							buf[i] = 0
+						}
+						copy(buf, other) // the caller reads the next file into the same buffer
+						got = leafOf(m)
+					}) {
+						continue
+					}
+					c.Eval(1)
+					c.Count("results_read_after_the_buffer_was_reused", 1)
+					if got != want {
+						c.Violate("depends-on-more-than-the-bytes", key, fmt.Sprintf("the result of Detect reads %s when its accessors are first called after the caller re-used the input buffer (then holding %s); the same bytes give %s", got, fw.Quote(other, 30), want), pl)
+					}
+				}
+			}
+			// (2) the answer does not depend on GOMAXPROCS: inputs of 1 MiB and more whose deciding
+			// byte is among the last ones
+			old := runtime.GOMAXPROCS(0)
+			for _, size := range []int{1 << 20, 1<<20 + 5, 1<<20 + 13, 3<<20 + 7} {
+				for _, tail := range [][]byte{{0x00}, {0x01, 'x'}, []byte("x"), {0xE9}, []byte("\x00xxxxxxxxxxxx")} {
+					x := append(bytes.Repeat([]byte("a line of text\n"), size/15+1)[:size], tail...)
+					var res []string
+					for _, p := range []int{1, 2, 3, 7, 16} {
+						runtime.GOMAXPROCS(p)
+						res = append(res, leafOf(lib.Detect(x, 0)))
+					}
+					runtime.GOMAXPROCS(old)
+					c.Eval(5)
+					c.Count("inputs_detected_under_5_gomaxprocs_values", 1)
+					for i := range res {
+						if res[i] != res[0] {
+							c.Violate("depends-on-more-than-the-bytes", fw.InputKey(x[len(x)-64:], 0, "Detect/gomaxprocs"), fmt.Sprintf("a %d-byte input ending in %s gives %s with GOMAXPROCS=1 and %s with GOMAXPROCS=%d", len(x), fw.Quote(tail, 20), res[0], res[i], []int{1, 2, 3, 7, 16}[i]), c04Payload{Kind: "gomaxprocs", Probe: c04Probe{Name: fmt.Sprint(size), In: tail}})
+							break
+						}
+					}
+				}
+			}
+		}
 		lo, hi := split(len(ins), b.Idx, b.Of)
 		for _, x := range ins[lo:hi] {
 			if len(x) > 20000 {
@@ -616,6 +668,8 @@ func init() {
 			switch p.Kind {
 			case "limit-toggle":
 				c04Run(c, fw.Batch{Kind: "limit-toggle", N: 200})
+			case "late-accessors", "gomaxprocs":
+				c04Run(c, fw.Batch{Kind: "immutable", Idx: 1, Of: 1000})
 			case "repeat":
 				first := leafOf(lib.Detect(p.Probe.In, p.Probe.Limit))
 				for k := 0; k < 400; k++ {
